@@ -55,6 +55,34 @@ MUTANTS = [
      ['C07']),
     ('aa8-source-user', 'fsm.py', 'self.primitive = pdu.AAbortPDU(source=2, reason_diag=0)\n        if self.dul_socket:',
      'self.primitive = pdu.AAbortPDU(source=0, reason_diag=0)\n        if self.dul_socket:', ['C04', 'C05']),
+    ('header-lt-6-c05', 'dulprovider.py', 'if len(self.raw_pdu) < 6:', 'if len(self.raw_pdu) < 7:',
+     ['C05']),
+    ('chunks-le', 'dimsemessages.py', '(pos + size < length)', '(pos + size <= length)', ['C06']),
+    ('maxsize-minus5', 'dimsemessages.py',
+     '    maxsize = max_pdu_length - 6\n    for chunk, has_next in chunks(data_set, maxsize):',
+     '    maxsize = max_pdu_length - 5\n    for chunk, has_next in chunks(data_set, maxsize):',
+     ['C06', 'C10']),
+    ('file-maxsize-minus5', 'dimsemessages.py',
+     '    maxsize = max_pdu_length - 6\n    while True:',
+     '    maxsize = max_pdu_length - 5\n    while True:', ['C06']),
+    ('cmd-data-flags-swapped', 'dimsemessages.py',
+     'for item, bit in fragment(encoded_command_set, max_pdu_length, 1, 3):',
+     'for item, bit in fragment(encoded_command_set, max_pdu_length, 0, 2):', ['C06']),
+    ('file-last-flag', 'dimsemessages.py',
+     "        has_next = fp.read(1)\n        if has_next:\n            fp.seek(-1, 1)",
+     "        has_next = fp.read(1)\n        if has_next:\n            fp.seek(0, 1)", ['C06']),
+    ('dataset-flag-forgotten', 'dimsemessages.py',
+     '        if value:\n            self.command_set.CommandDataSetType = 0x0001',
+     '        if value:\n            pass', ['C08']),
+    ('group-length-plus-two', 'dimsemessages.py',
+     "for v in self.command_set.values() if v.tag != (0x0000, 0x0000))",
+     "for v in list(self.command_set.values())[1:])", ['C08']),
+    ('lazy-command-encoding', 'dimsemessages.py',
+     "        return self._fragments(encoded_command_set, self.data_set, pc_id, max_pdu_length)",
+     "        return self._fragments(None, self, pc_id, max_pdu_length)", ['C06', 'C08']),
+    ('wrong-pcid', 'dimsemessages.py',
+     "            value_item = pdu.PresentationDataValueItem(pc_id, struct.pack('b', bit) + item)\n            yield pdu.PDataTfPDU([value_item])\n\n        # fragment data set",
+     "            value_item = pdu.PresentationDataValueItem(1, struct.pack('b', bit) + item)\n            yield pdu.PDataTfPDU([value_item])\n\n        # fragment data set", ['C06']),
 ]
 
 
